@@ -51,3 +51,17 @@ package proto
 //@ trusted
 //@ pure
 //@ nondet
+
+//@ func GetResponse.GetKey
+//@ property C20
+//@ pure
+//@ reads fields(GetResponse), fields(string)
+//@ ensures x != nil && x.Key != nil ==> result == *x.Key
+//@ ensures x == nil || x.Key == nil ==> result == ""
+
+//@ func GetResponse.GetSecondaryIndexKey
+//@ property C20
+//@ pure
+//@ reads fields(GetResponse), fields(string)
+//@ ensures x != nil && x.SecondaryIndexKey != nil ==> result == *x.SecondaryIndexKey
+//@ ensures x == nil || x.SecondaryIndexKey == nil ==> result == ""
